@@ -113,6 +113,14 @@ def _strata():
         S.append(("bias_gelu", {"dtype": "f16", "contrib": contrib}, "act"))
     S.append(("bias_gelu", {"dtype": "f32", "contrib": False, "approximate": True}, "act"))
     S.append(("bias_gelu", {"dtype": "f32", "contrib": True, "bias_rank": 2}, "act"))
+    # biases that are "a vector up to singleton dims" but NOT along the last axis (square input so that they type-check), for
+    # every Gelu spelling and both operand orders; and the harmless [1,1,D] / full [D,D] forms
+    for contrib in (False, True):
+        for comm in (False, True):
+            S.append(("bias_gelu", {"dtype": "f32", "contrib": contrib, "commuted": comm, "bias_rank": "col", "_shape": [2, 4, 4]}, "act"))
+        S.append(("bias_gelu", {"dtype": "f32", "contrib": contrib, "bias_rank": "mid", "_shape": [3, 5, 5]}, "act"))
+    S.append(("bias_gelu", {"dtype": "f32", "contrib": False, "bias_rank": 3}, "act"))
+    S.append(("bias_gelu", {"dtype": "f32", "contrib": False, "bias_rank": "full", "_shape": [2, 4, 4]}, "act"))
     # rms norm: mul order x cast placement
     for sf in (False, True):
         S.append(("rms_norm", {"dtype": "f32", "scale_first": sf}, "norm_shape"))
@@ -125,6 +133,12 @@ def _strata():
     S.append(("rms_norm", {"dtype": "f32", "axis": -2}, "norm_shape"))
     S.append(("rms_norm", {"dtype": "f32", "recip": False}, "norm_shape"))
     S.append(("rms_norm", {"dtype": "f32", "pow_exp": 3.0}, "norm_shape"))
+    # look-alikes that are not an RMS normalisation (inputs contain a small-magnitude row, where they differ most)
+    for sf in (False, True):
+        S.append(("rms_norm", {"dtype": "f32", "eps_after_sqrt": True, "scale_first": sf}, "norm_shape"))
+    S.append(("rms_norm", {"dtype": "f32", "eps_after_sqrt": True, "recip": False}, "norm_shape"))
+    S.append(("rms_norm", {"dtype": "f16", "eps_after_sqrt": True, "cast_in": True}, "norm_shape"))
+    S.append(("rms_norm", {"dtype": "f32", "abs_mean": True}, "norm_shape"))
     S.append(("rms_norm", {"dtype": "f32", "scale_shape": "scalar"}, "norm_shape"))
     S.append(("rms_norm", {"dtype": "f32", "scale_shape": "1D"}, "norm_shape"))
     S.append(("rms_norm", {"dtype": "f32", "scale_shape": "full"}, "norm_shape"))
